@@ -13,7 +13,7 @@ ASSUMPTIONS = [
     "only the outermost frame of a case is judged; its child (possibly itself a frame) is rendered alone by rich at the inner width and must re-appear unchanged",
     "frame style is 'none' so that styles do not enter the comparison; characters and cell positions are compared",
     "Align: the child is laid out at min(its measured maximum, Align.width, W) as documented; the measurement itself is C09's subject",
-    "Columns items are short unique tokens that fit the width unwrapped; Tree labels are unique tokens (possibly multi-line)",
+    "Columns items are short unique tokens that fit the width unwrapped (some cases render, add items, and render again); Tree labels are unique tokens (possibly multi-line)",
     "ProgressBar fills its width exactly only when colour is available (colour system set and no NO_COLOR), as the statement says",
     "widths are at or above the structural minimum of the frame (DESIGN 3)",
 ]
@@ -261,9 +261,9 @@ class ColumnsTrees(Part):
     budget = {"quick": (4, 800), "thorough": (16, 8000)}
 
     def strategy(self, tier):
-        cols = st.builds(lambda n, eq, ex, cf, rtl, al, p, t, w: {"k": "columns", "n": n, "equal": eq, "expand": ex, "column_first": cf, "right_to_left": rtl, "align": al, "padding": p, "title": t, "W": w},
+        cols = st.builds(lambda n, eq, ex, cf, rtl, al, p, t, w, first: {"k": "columns", "n": n, "equal": eq, "expand": ex, "column_first": cf, "right_to_left": rtl, "align": al, "padding": p, "title": t, "W": w, "first": first},
                          st.integers(1, 14), st.booleans(), st.booleans(), st.booleans(), st.booleans(), st.sampled_from([None, "left", "center", "right"]), GT.pad_strategy(),
-                         st.one_of(st.none(), st.just("TITLE")), st.one_of(st.integers(6, 30), st.integers(6, 120)))
+                         st.one_of(st.none(), st.just("TITLE")), st.one_of(st.integers(6, 30), st.integers(6, 120)), st.one_of(st.none(), st.none(), st.integers(0, 13)))
 
         def tnode(depth=0):
             kids = st.lists(st.deferred(lambda: tnode(depth + 1)), max_size=3) if depth < 3 else st.just([])
@@ -282,6 +282,14 @@ class ColumnsTrees(Part):
             con = make_console(W)
             c = sut(Columns, list(items), padding=tuple(spec["padding"]), expand=spec["expand"], equal=spec["equal"], column_first=spec["column_first"],
                     right_to_left=spec["right_to_left"], align=spec["align"], title=spec["title"])
+            if spec.get("first") is not None and spec["first"] < len(items):
+                # history: render with the first items only, add the rest with add_renderable(), render again - the second render is judged
+                c = sut(Columns, list(items[:spec["first"]]), padding=tuple(spec["padding"]), expand=spec["expand"], equal=spec["equal"], column_first=spec["column_first"],
+                        right_to_left=spec["right_to_left"], align=spec["align"], title=spec["title"])
+                render_text_lines(con, c)
+                for it in items[spec["first"]:]:
+                    sut(c.add_renderable, it)
+                ctx.cls("render-add-render")
             lines = render_text_lines(con, c)
             desc = "%r -> \n%s" % (spec, "\n".join(lines))
             rows = []
